@@ -94,7 +94,7 @@ fn euclid_model(l: L, op: u16, a: u128, b: u128) -> Option<EuclidModel> {
 
 #[allow(clippy::too_many_arguments)]
 pub fn matches(kf: &Kf, prop: &str, l: L, op: u16, a: u128, b: u128, label: &str, got: &Out, _ex: &Exact, _chk: bool) -> Option<&'static str> {
-    if prop == "C07" && (op == DIV_EUCLID || op == DIV_EUCLID_INT) {
+    if (prop == "C07" || prop == "C18") && (op == DIV_EUCLID || op == DIV_EUCLID_INT) {
         let m = euclid_model(l, op, a, b)?;
         let id = if m.region_trunc {
             EUCLID_TRUNC
